@@ -524,6 +524,9 @@ impl<const MQ: u64> GF255<MQ> {
     // ctl MUST be equal to 0 or 0xFFFFFFFF.
     #[inline]
     pub fn set_cond(&mut self, a: &Self, ctl: u32) {
+        // Barrier: prevent the compiler from turning the masking below
+        // into a conditional jump on the (possibly secret) control word.
+        let ctl = core::hint::black_box(ctl);
         let cw = ((ctl as i32) as i64) as u64;
         self.0[0] ^= cw & (self.0[0] ^ a.0[0]);
         self.0[1] ^= cw & (self.0[1] ^ a.0[1]);
@@ -546,6 +549,9 @@ impl<const MQ: u64> GF255<MQ> {
     // ctl MUST be either 0x00000000 or 0xFFFFFFFF.
     #[inline]
     pub fn cswap(a: &mut Self, b: &mut Self, ctl: u32) {
+        // Barrier: prevent the compiler from turning the masking below
+        // into a conditional jump on the (possibly secret) control word.
+        let ctl = core::hint::black_box(ctl);
         let cw = ((ctl as i32) as i64) as u64;
         let t = cw & (a.0[0] ^ b.0[0]); a.0[0] ^= t; b.0[0] ^= t;
         let t = cw & (a.0[1] ^ b.0[1]); a.0[1] ^= t; b.0[1] ^= t;
